@@ -2,7 +2,8 @@
 
 A *tree* is a JSON-able dict:
     {"root": idx, "files": [{"path": "d/a.yaml", "imports": [idx..], "comments": 0|1|2, "consts": [[name, int]..],
-                             "defs": [DEF..]}]}
+                             "aliases": [[name, native type]..] (optional), "defs": [DEF..]}],
+     "validate_alignment": bool (optional, default true: the Parser option)}
     DEF = {"kind": "m"|"s", "name": str, "id": int, "fields": None | "OTHER" | [[fname, type text]..],
            "hexid": bool, "fields_first": bool, "quote": bool}
 Structs and messages of one file are written to `struct_defs` / `message_defs` in list order.
@@ -53,6 +54,8 @@ from typing import Any, Dict, List, Optional, Tuple
 from . import common as C
 
 NATIVE = ["int32", "double", "uint8", "int16", "char", "float", "uint64", "unsigned int", "long long"]
+# the names of the tables the four back ends file definitions under (and the prefixes they put in front of names)
+TABLE_PREFIXES = ["hash_", "HASH_", "MT_", "MDF_", "MID_", "HID_", "RTMA_", "defines_", "typedefs_", "constants_", "SDF_"]
 
 
 def _hex(s: str) -> str:
@@ -160,6 +163,9 @@ def file_text(f: Dict[str, Any], import_strings: List[str]) -> str:
     if f.get("consts"):
         out.append("constants:")
         out += [f"  {n}: {v}" for n, v in f["consts"]]
+    if f.get("aliases"):
+        out.append("aliases:")
+        out += [f"  {n}: {t}" for n, t in f["aliases"]]
     structs = [d for d in f["defs"] if d["kind"] == "s"]
     msgs = [d for d in f["defs"] if d["kind"] == "m"]
     if structs:
@@ -241,7 +247,7 @@ def parse_tree(tree: Dict[str, Any], core: bool = False) -> Dict[str, Any]:
     cwd = os.getcwd()
     try:
         root = materialise(tree, base / "t")
-        p = P.Parser(import_coredefs=core)
+        p = P.Parser(import_coredefs=core, validate_alignment=bool(tree.get("validate_alignment", True)))
         p.logger.handlers.clear()
         p.logger.addHandler(logging.NullHandler())
         p.logger.setLevel(logging.CRITICAL + 10)
@@ -268,9 +274,11 @@ def parse_tree(tree: Dict[str, Any], core: bool = False) -> Dict[str, Any]:
 # generators
 # --------------------------------------------------------------------------------------------------
 
-def rand_type(rng, structs: List[str]) -> str:
+def rand_type(rng, structs: List[str], aliases: Optional[List[str]] = None) -> str:
     if structs and rng.random() < 0.2:
         t = rng.choice(structs)
+    elif aliases and rng.random() < 0.3:
+        t = rng.choice(aliases)
     else:
         t = rng.choice(NATIVE)
     r = rng.random()
@@ -280,9 +288,9 @@ def rand_type(rng, structs: List[str]) -> str:
     return t
 
 
-def rand_fields(rng, structs: List[str], kmin=1, kmax=5) -> List[List[str]]:
+def rand_fields(rng, structs: List[str], kmin=1, kmax=5, aliases: Optional[List[str]] = None) -> List[List[str]]:
     names = rng.sample(["a", "b", "c", "x1", "y_2", "count", "value", "flags", "fields", "id", "name", "Z"], rng.randint(kmin, kmax))
-    return [[n, rand_type(rng, structs)] for n in names]
+    return [[n, rand_type(rng, structs, aliases)] for n in names]
 
 
 def base_tree(rng) -> Tuple[Dict[str, Any], str]:
@@ -295,6 +303,13 @@ def base_tree(rng) -> Tuple[Dict[str, Any], str]:
     if nfiles == 3 and rng.random() < 0.5:
         files[0]["imports"].append(2)
     structs: List[str] = []
+    # type aliases (of native types) in the deepest file — the first one read, so they are known everywhere; what an
+    # alias stands for is not part of the identity of a definition that names it
+    aliases: List[str] = []
+    if rng.random() < 0.5:
+        for k in range(rng.choice([1, 2])):
+            files[-1].setdefault("aliases", []).append([f"AL_{k}", rng.choice(NATIVE)])
+            aliases.append(f"AL_{k}")
     mid = 1000
     # deepest file first so that references always point to something already defined
     for i in reversed(range(nfiles)):
@@ -305,18 +320,18 @@ def base_tree(rng) -> Tuple[Dict[str, Any], str]:
             if structs and form < 0.2:
                 flds: Any = rng.choice(structs)
             else:
-                flds = rand_fields(rng, structs)
+                flds = rand_fields(rng, structs, aliases=aliases)
             f["defs"].append({"kind": "s", "name": name, "id": 0, "fields": flds, "quote": rng.random() < 0.2})
             structs.append(name)
         for _ in range(rng.choice([0, 1, 2])):
             mid += rng.randint(1, 9)
-            f["defs"].append(_rand_msg(rng, f"MSG_{mid}", mid, structs, []))
+            f["defs"].append(_rand_msg(rng, f"MSG_{mid}", mid, structs, [], aliases=aliases))
     # the target lives in a random file; it may re-use a struct or an earlier message of its closure
     ti = rng.randrange(nfiles)
     avail_structs = _defs_visible(files, ti, "s")
     avail_msgs = [n for n in _defs_visible(files, ti, "m")]
     mid += 5
-    t = _rand_msg(rng, "TARGET", mid, avail_structs, avail_msgs, ref_bias=0.3)
+    t = _rand_msg(rng, "TARGET", mid, avail_structs, avail_msgs, ref_bias=0.3, aliases=aliases)
     files[ti]["defs"].append(t)
     return {"root": 0, "files": files}, "TARGET"
 
@@ -340,14 +355,14 @@ def _defs_visible(files, i, kind) -> List[str]:
     return out
 
 
-def _rand_msg(rng, name, mid, structs, msgs, ref_bias=0.12) -> Dict[str, Any]:
+def _rand_msg(rng, name, mid, structs, msgs, ref_bias=0.12, aliases: Optional[List[str]] = None) -> Dict[str, Any]:
     r = rng.random()
     if r < 0.15:
         flds: Any = None
     elif r < 0.15 + ref_bias and (structs or msgs):
         flds = rng.choice(structs + msgs)
     else:
-        flds = rand_fields(rng, structs)
+        flds = rand_fields(rng, structs, aliases=aliases)
     return {"kind": "m", "name": name, "id": mid, "fields": flds, "hexid": rng.random() < 0.2,
             "fields_first": rng.random() < 0.2, "quote": rng.random() < 0.15}
 
@@ -411,6 +426,46 @@ def relocations(rng, tree, target) -> List[Tuple[str, Dict[str, Any]]]:
         if f["imports"]:
             f["imports"].append(f["imports"][0])
     out.append(("imports_reordered_repeated", t))
+    out += context_variants(tree, target)
+    return out
+
+
+_WIDTH = {"int32": 4, "double": 8, "uint8": 1, "int16": 2, "char": 1, "float": 4, "uint64": 8, "unsigned int": 4, "long long": 8}
+
+
+def context_variants(tree, target) -> List[Tuple[str, Dict[str, Any]]]:
+    """the target's own text untouched, its *context* changed (identity unchanged, so the hash must not move): the
+    alignment option of the compiler switched off; what the aliases it names stand for (another native width); the
+    member lists of the structs it names as field types (other widths, one member more).  For a target written in the
+    re-use form the structs it re-uses are left alone (their fields are its identity)."""
+    out = []
+    t = copy.deepcopy(tree)
+    t["validate_alignment"] = False
+    out.append(("alignment_validation_off", t))
+    if any(f.get("aliases") for f in tree["files"]):
+        for tag, pick in (("aliases_narrow", lambda w: "uint8" if w != 1 else "uint64"),
+                          ("aliases_wide", lambda w: "double" if w != 8 else "int16")):
+            t = copy.deepcopy(tree)
+            for f in t["files"]:
+                f["aliases"] = [[n, pick(_WIDTH.get(ty, 4))] for n, ty in f.get("aliases", [])]
+            out.append((tag, t))
+    defs = closure_defs(tree)
+    d = defs.get(target)
+    if d is not None and isinstance(d["fields"], list):
+        named = {re.match(r"\s*([\w ]*)", ty).group(1).strip() for _n, ty in d["fields"]}
+        # structs named as member types whose own field list is written out (a struct written `fields: OTHER` shares
+        # OTHER's list: left alone) and that nothing re-uses
+        reused = {x["fields"] for x in defs.values() if isinstance(x["fields"], str)}
+        member_structs = [n for n in named if n in defs and defs[n]["kind"] == "s" and isinstance(defs[n]["fields"], list)
+                          and n not in reused]
+        if member_structs:
+            t = copy.deepcopy(tree)
+            for n in member_structs:
+                i, j = _find(t, n)
+                sd = t["files"][i]["defs"][j]
+                sd["fields"] = [[fn, ("uint8" if k % 2 == 0 else "double") + (ty[ty.index("["):] if "[" in ty else "")]
+                                for k, (fn, ty) in enumerate(sd["fields"])] + [["zz_extra", "uint8"]]
+            out.append(("member_structs_edited", t))
     return out
 
 
@@ -787,12 +842,14 @@ def outputs_check(tree: Dict[str, Any], names: List[str]) -> Dict[str, Any]:
         jtext = (outd / "gen_defs.js").read_text()
         mtext = "\n".join(q.read_text() for q in outd.rglob("*.m"))
         for n in names:
-            m = re.search(r"#define\s+HASH_%s\s+0x([0-9a-fA-F]+)\s" % re.escape(n), ctext)
-            res[n]["c"] = int(m.group(1), 16) if m else None
-            m = re.search(r'RTMA\.HASH\.%s\s*=\s*"([0-9a-fA-F]+)"' % re.escape(n), jtext)
-            res[n]["js"] = int(m.group(1), 16) if m else None
-            m = re.search(r'\.hash\.%s\s*=\s*"([0-9a-fA-F]+)"' % re.escape(n), mtext)
-            res[n]["m"] = int(m.group(1), 16) if m else None
+            # what the entry under the message's own name holds once the file has been read: in JavaScript and MATLAB a
+            # later assignment to the same name overwrites an earlier one; two #defines of one macro are an error in C
+            ms = re.findall(r"#define\s+HASH_%s\s+0x([0-9a-fA-F]+)\s" % re.escape(n), ctext)
+            res[n]["c"] = int(ms[-1], 16) if ms and len(set(ms)) == 1 else None
+            ms = re.findall(r'RTMA\.HASH\.%s\s*=\s*"([0-9a-fA-F]+)"' % re.escape(n), jtext)
+            res[n]["js"] = int(ms[-1], 16) if ms else None
+            ms = re.findall(r'\.hash\.%s\s*=\s*"([0-9a-fA-F]+)"' % re.escape(n), mtext)
+            res[n]["m"] = int(ms[-1], 16) if ms else None
         r = subprocess.run([sys.executable, "-c", _SENDER, str(C.REPO / "src"), str(outd / "gen_defs.py"), json.dumps(names)],
                            capture_output=True, text=True, timeout=300, cwd=str(base))
         if r.returncode != 0:
